@@ -98,6 +98,7 @@ class Checker:
         self.vacuity = []
         for g in groups:
             w = g.world()
+            w['__repo__'] = self.repo            # lemmas generated from the source text read THIS tree
             eng = Engine(self.repo, w, make_registry(g), bases=w.get('__bases__', {}))
             self.engines[g.name] = (eng, w)
             for c in g.contracts:
@@ -279,7 +280,10 @@ class Checker:
             return self.undecided('back ends disagree (z3 unsat, cvc5 sat) on ' + ', '.join(disagree[:3]))
         violations = self.triage(failed) if failed else []
         violations += self.finish_bounded(bounded_procs)
-        known = self.known_findings()
+        try:
+            known = self.known_findings()
+        except Unsupported as err:
+            return self.undecided(str(err))
         if not violations and not getattr(self, 'no_evidence', False):
             try:
                 cc = self.crosscheck(4 if self.tier == 'quick' else 60)
@@ -477,6 +481,10 @@ class Checker:
                 self.say(f"KNOWN-FINDING: property={self.prop} {e['id']}: {e['what']} "
                          f"[witness {json.dumps(e['witness'])[:160]} -> {r.get('observed', '')[:120]}]")
             out.append({'id': e['id'], 'still_fails': bool(still), 'native': r.get('violated'), 'status': r.get('status')})
+            if r.get('status') not in ('violated', 'holds', 'precondition_false'):
+                # the recorded witness could not even be replayed: neither "still fails" nor "gone" is known
+                raise Unsupported(f"known finding {e['id']} could not be replayed natively: {r.get('status')} "
+                                  f"{str(r.get('error') or r.get('clause_errors'))[:200]}")
         return out
 
     # ------------------------------------------------------------------ evidence
